@@ -26,6 +26,9 @@ func overlay(harnessDir, repoDir string) map[string][]byte {
 }
 
 func main() {
+	if len(os.Args) > 1 && os.Args[1] == "check" {
+		os.Exit(runCheck(os.Args[2:]))
+	}
 	repo := flag.String("repo", "/repo", "repository")
 	hdir := flag.String("harness", "/verif/harness", "harness dir")
 	pkg := flag.String("pkg", "", "package import path")
